@@ -460,7 +460,8 @@ def alpha(S, O, ms, dirs):
         Vf = V.astype(onp.float64)
 
         def fn_codes(name, m, key):
-            fl = fapply(name, lam, m)
+            # the reference spectrum of a singular positive semi-definite tensor (80-bit Jacobi) can carry a zero as -O(eps)
+            fl = fapply(name, onp.maximum(lam, 0) if name == "sqrt" else lam, m)
             fs = onp.abs(fl).max(axis=1)
             if name == "log":
                 fs = onp.maximum(fs, LD(1))
@@ -469,7 +470,10 @@ def alpha(S, O, ms, dirs):
             fv = code(amax(X - recompose(V, fl)), VTOL * fs, okx)
             P = PERMS[:O["eqv_" + key].shape[1]].astype(LD)
             PX = onp.einsum("pij,njk,plk->npil", P, X, P)
-            eq = code(onp.abs(O["eqv_" + key].astype(LD) - PX).reshape(n, -1).max(axis=1), VTOL * fs, okx,
+            # sqrt is not Lipschitz at 0: a zero eigenvalue computed as O(eps |A|) has a square root of O(sqrt(eps |A|)), in
+            # any arithmetic; two evaluations of a singular tensor can differ by that much
+            sing = (onp.sqrt(LD(1e-12) * nrm) * (onp.abs(lam).min(axis=1) <= LD(1e-9) * nrm)) if name == "sqrt" else 0
+            eq = code(onp.abs(O["eqv_" + key].astype(LD) - PX).reshape(n, -1).max(axis=1), VTOL * fs + sing, okx,
                       fin(O["eqv_" + key]))
             # Daleckii-Krein: Df(A)[H] = V (Fdd o (V^T H V)) V^T
             Fdd = divdiff(name, lam[:, :, None], lam[:, None, :], m)
